@@ -615,7 +615,7 @@ func runStdHistories(r *hlib.Run, std []*pkgData) {
 	}
 	perCodec := 60
 	if r.Thorough {
-		perCodec = 1500
+		perCodec = 600
 	}
 	type job struct {
 		c      *stdCodec
@@ -683,6 +683,9 @@ func runStdHistories(r *hlib.Run, std []*pkgData) {
 	}
 	outs := make([]*histOut, len(jobs))
 	workers := 8
+	if r.Thorough {
+		workers = 14
+	}
 	var wg sync.WaitGroup
 	for w := 0; w < workers; w++ {
 		wg.Add(1)
